@@ -160,6 +160,25 @@ pub fn run(ctx: &mut Ctx) {
         cases.push(c);
         streams.push(s);
     }
+    // ---- shards of more than half a megabyte (a size-dependent path in a one-shot function — striping, a working-space
+    //      cap — is taken nowhere else): one-shot encode == streaming encode, byte for byte, both rates
+    let n_long = if ctx.thorough() { 6 } else { 2 };
+    for j in 0..n_long {
+        let (k, r) = if j % 2 == 0 { (3usize, 2usize) } else { (2, 3) };
+        let sb = *ctx.rng.pick(&[500_002usize, 524_288, 524_290, 600_000, 655_362]) + 2 * ctx.rng.range(0, 40) * (j % 3);
+        let mut c = Case::new(&format!("oneshot-long-shards-{}", j));
+        c.with_model = false;
+        let mut s = Case::new("streaming");
+        s.with_model = false;
+        let shards: Vec<Vec<u8>> = (0..k).map(|_| ctx.rng.bytes(sb)).collect();
+        c.push(format!("X encode {} {} {}", k, r, shards.iter().map(|x| to_hex(x)).collect::<Vec<_>>().join(",")));
+        s.push(format!("E new rs default {} {} {}", k, r, sb));
+        for sh in &shards { s.push(format!("E add {}", to_hex(sh))); }
+        s.push("E encode".into());
+        ctx.count("oneshot", "encode-long-shards");
+        cases.push(c);
+        streams.push(s);
+    }
     // ---- counts far outside the envelope, up to usize::MAX (any size derived from a count BEFORE the `supports`
     //      pre-check — a capacity, a product — overflows or cannot be allocated here): the one-shot functions answer
     //      like the streaming constructors
